@@ -97,7 +97,8 @@ def step (st : State) (line : String) : State × String :=
   let v := st.base.v
   let e := st.base.env
   let s := st.base.s
-  match words line with
+  -- `$S` inside a token stands for a space (names that need escaping in a URL path)
+  match (words line).map (fun w => w.replace "$S" " ") with
   | ["clivariant", x] => ({ st with cv := if x == "legacy" then .legacy else .fixed }, "ok")
   | ["h", "fetch", hn, p] => hstep st hn (.fetch p)
   | ["h", "enable", hn] => hstep st hn .enable
